@@ -34,3 +34,70 @@ Print Assumptions C11_assert_message.
 Print Assumptions C11_entry_native.
 Print Assumptions C11_entry_cw20.
 Print Assumptions C11_failed_unchanged.
+
+From HT Require Import World.Observe World.Monitors Proofs.LedgerProofs Proofs.FrameProofs Proofs.RouterTxProofs.
+Theorem C11_tx_native : forall w c funds ops m to w',
+  NoDup (map fst funds) ->
+  exec w (ORouterOps c funds ops (Some m) to) = Ok w' ->
+  let rcv := match to with Some t => t | None => c end in
+  let target := last_ask ops in
+  let paid := match target with ANative d => coins_of d funds | AToken _ => 0 end in
+  exists before after,
+    asset_balance w target rcv = Ok before /\ asset_balance w' target rcv = Ok after /\
+    before + m <= after + (if rcv =? c then paid else 0).
+Proof. exact router_tx_native_min. Qed.
+Print Assumptions C11_tx_native.
+
+Theorem C11_tx_native_total : forall w c funds ops m to w',
+  exec w (ORouterOps c funds ops (Some m) to) = Ok w' ->
+  let rcv := match to with Some t => t | None => c end in
+  let target := last_ask ops in
+  let paid := match target with ANative d => coins_total d funds | AToken _ => 0 end in
+  exists before after,
+    asset_balance w target rcv = Ok before /\ asset_balance w' target rcv = Ok after /\
+    before + m <= after + (if rcv =? c then paid else 0).
+Proof. exact router_tx_native_min_total. Qed.
+Print Assumptions C11_tx_native_total.
+
+Theorem C11_tx_native_other_recipient : forall w c funds ops m t w',
+  t <> c ->
+  exec w (ORouterOps c funds ops (Some m) (Some t)) = Ok w' ->
+  exists before after,
+    asset_balance w (last_ask ops) t = Ok before /\ asset_balance w' (last_ask ops) t = Ok after /\
+    before + m <= after.
+Proof. exact router_tx_native_min_other. Qed.
+Print Assumptions C11_tx_native_other_recipient.
+
+Theorem C11_tx_cw20 : forall w ta sender n ops m to w',
+  w_pairs w (w_rtr w) = None ->
+  exec w (OSend ta sender (w_rtr w) n (HRouterOps ops (Some m) to)) = Ok w' ->
+  let rcv := match to with Some t => t | None => sender end in
+  let target := last_ask ops in
+  let paid := match target with AToken t => if t =? ta then n else 0 | ANative _ => 0 end in
+  exists before after,
+    asset_balance w target rcv = Ok before /\ asset_balance w' target rcv = Ok after /\
+    before + m <= after + (if rcv =? sender then paid else 0).
+Proof. exact router_tx_cw20_min. Qed.
+Print Assumptions C11_tx_cw20.
+
+Theorem C11_tx_example :
+  (exists ps, w_pairs tx_w 4 = Some ps /\ p_a0 ps = ANative 0 /\ p_a1 ps = AToken 2 /\
+              asset_balance tx_w (ANative 0) 4 = Ok 1000000 /\ asset_balance tx_w (AToken 2) 4 = Ok 1000000) /\
+  q_router_simulate_ops tx_w 5000 tx_route = Ok 4961 /\
+  asset_balance tx_w (AToken 2) 1001 = Ok 1000000000000 /\
+  (exists w', exec tx_w (ORouterOps 1001 [(0, 5000)] tx_route (Some 4961) None) = Ok w' /\
+              asset_balance w' (AToken 2) 1001 = Ok (1000000000000 + 4961)) /\
+  (exists e, exec tx_w (ORouterOps 1001 [(0, 5000)] tx_route (Some (4961 + 1)) None) = Err e).
+Proof. exact router_tx_example. Qed.
+Print Assumptions C11_tx_example.
+
+Theorem C11_tx_native_needs_distinct_coins : ~ (forall w c funds ops m to w',
+  exec w (ORouterOps c funds ops (Some m) to) = Ok w' ->
+  let rcv := match to with Some t => t | None => c end in
+  let target := last_ask ops in
+  let paid := match target with ANative d => coins_of d funds | AToken _ => 0 end in
+  exists before after,
+    asset_balance w target rcv = Ok before /\ asset_balance w' target rcv = Ok after /\
+    before + m <= after + (if rcv =? c then paid else 0)).
+Proof. exact router_tx_native_min_false. Qed.
+Print Assumptions C11_tx_native_needs_distinct_coins.
